@@ -114,13 +114,48 @@ def container_case(draw, tier="quick"):
     case = {"tps": tps, "cpus": cpus, "ram": ram, "ops": ops}
     if draw(st.booleans()):
         # if the container is OOM-killed its unfinished operators are run again in a second container of another size
-        case["retry"] = {"cpus": draw(st.sampled_from(CPUS) | st.integers(1, 64)),
+        case["retry"] = {"cpus": draw(st.sampled_from([1, 1, 2, 3] + CPUS) | st.integers(1, 64)),
                          "ram": peak * draw(st.sampled_from([1.0, 2.0])) + draw(st.sampled_from([0.5, 1, 10])) if draw(st.integers(0, 3)) else ram * 2}
     return case
 
 
+@st.composite
+def rescaled_retry_case(draw, tier="quick"):
+    """Family: an operator is OOM-killed and run again with fewer CPUs, so that phases which rounded to zero ticks in the
+    first container take ticks in the second (and vice versa)."""
+    tps = draw(st.sampled_from([10, 1, 2, 5, 20, 100, 1000]))
+    cpus = draw(st.sampled_from([4, 8, 16, 64, 3, 7]))
+    nops = draw(st.integers(1, 3))
+    victim = draw(st.integers(0, nops - 1))
+    ops = []
+    peak_before = 0.0
+    for i in range(nops):
+        segs = []
+        nseg = draw(st.integers(2, 3)) if i == victim else draw(st.sampled_from([1, 2]))
+        for j in range(nseg):
+            law = draw(st.sampled_from([l for l in T.LAWS if l != "const"]))
+            sp, _ = T.speedup(law, cpus)
+            last = j == nseg - 1
+            if i == victim and last:
+                # no I/O, CPU time below one tick at `cpus` but several ticks on one CPU
+                segs.append({"cpu": draw(st.sampled_from([0.3, 0.6, 0.9])) / tps * float(sp), "law": law, "mem": draw(st.sampled_from([None, 0.5])), "read": 0.0})
+            else:
+                k = draw(st.integers(1, 4))
+                segs.append({"cpu": (draw(st.integers(0, 2)) + 0.5) / tps * float(sp), "law": law, "mem": None, "read": (k + 0.5) * 20.0 / tps})
+        ops.append(segs)
+    # allocation: enough for every operator before the victim, too little for the victim's first segment
+    before = max([sg["read"] for segs in ops[:victim] for sg in segs] + [0.0])
+    vic = ops[victim][0]["read"]
+    if vic <= before:
+        ops[victim][0]["read"] = vic = before + 2 * 20.0 / tps
+    ram = before + (vic - before) * draw(st.sampled_from([0.5, 0.25, 0.75]))
+    peak = max(sg["read"] for segs in ops for sg in segs)
+    return {"tps": tps, "cpus": cpus, "ram": ram, "ops": ops,
+            "retry": {"cpus": draw(st.sampled_from([1, 1, 2])), "ram": peak + draw(st.sampled_from([1, 0.5, 10]))}}
+
+
 def strategy(tier):
-    return container_case(tier)
+    return st.one_of(container_case(tier), container_case(tier), container_case(tier), container_case(tier), rescaled_retry_case(tier))
 
 
 def build_pipeline(ops_spec, name="p"):
